@@ -53,6 +53,24 @@ def cases(tier, seed):
         lo, hi, kind = scenario.gen_box(rng, N, "unit" if i % 3 == 0 else None)
         out.append({"kind": "holder", "N": N, "m": m, "lower": lo, "upper": hi, "box": kind, "i": i, "seed": seed,
                     "pairs": 500 if tier == "quick" else 1000})
+    # adjacency and nesting on boxes (not only on the unit cube), half of them on the Evolvent a Solver builds for the box
+    for i in range(48 if tier == "quick" else 1500):
+        rng = scenario.rng_for(seed, "C08b", i)
+        N = int(rng.integers(2, 6))
+        m = int(rng.integers(1, min(10, 48 // N - 1) + 1))
+        lo, hi, kind = scenario.gen_box(rng, N)
+        out.append({"kind": "boxadj", "N": N, "m": m, "lower": lo, "upper": hi, "box": kind, "i": i, "seed": seed, "W": 300 if tier == "quick" else 1200})
+    return out
+
+
+def box_cells(ev, xs, lo, side, m, gtol, viol, info):
+    out = []
+    for x in xs:
+        q = (ev.GetImage(x) - lo) / side * (2.0 ** m) - 0.5
+        j = np.rint(q)
+        if (np.any(np.abs(q - j) > gtol) or np.any(j < 0) or np.any(j >= 2 ** m)) and len(viol) < 4:
+            viol.append(dict(info, mech="box-image-not-a-cell-centre", x=x, grid_coordinate=q.tolist(), density=m))
+        out.append(j.astype(np.int64))
     return out
 
 
@@ -135,6 +153,38 @@ def run_case(c):
         obs.update({"window_adjacent_pairs": pairs, "window_nested": nested, "windows": len(c["starts"]), "max_Nm": N * m})
         return {"violations": viol, "obs": obs, "nontrivial": True, "key": "win|%d|%d|%s" % (N, m, c["starts"][:2]),
                 "sample": {"kind": "windows", "N": N, "m": m, "starts": c["starts"][:3], "W": c["W"]} if N * m >= 45 else None}
+    if kind == "boxadj":
+        rng = scenario.rng_for(c["seed"], "C08br", c["i"])
+        lo = np.array(c["lower"], dtype=float)
+        hi = np.array(c["upper"], dtype=float)
+        side = hi - lo
+        gtol = np.maximum(1e-6, 8.0 * np.spacing(np.maximum(np.abs(lo), np.abs(hi))) / side * (2.0 ** (m + 1)))
+        if np.any(gtol > 0.1):
+            return {"violations": [], "obs": {"boxadj_skipped_rounding": 1}, "nontrivial": False, "key": None}
+        via = c["i"] % 2 == 1
+        if via:
+            ev = em.solver_evolvent(c["lower"], c["upper"], N, m, rng, obs)
+            ev2 = em.solver_evolvent(c["lower"], c["upper"], N, m + 1, rng, obs)
+        else:
+            ev = Evolvent(c["lower"], c["upper"], N, m)
+            ev2 = Evolvent(c["lower"], c["upper"], N, m + 1)
+        info = {"N": N, "m": m, "lower": c["lower"], "upper": c["upper"], "built_by_a_solver": via}
+        s0 = int(rng.integers(0, max(1, n - c["W"])))
+        e0 = min(n - 1, s0 + c["W"])
+        cs = box_cells(ev, [(i + float(rng.random())) / n for i in range(s0, e0 + 1)], lo, side, m, gtol, viol, info)
+        for k in range(len(cs) - 1):
+            check_adjacent(cs[k], cs[k + 1], dict(info, i=s0 + k), viol)
+        n2 = n << N
+        kids_checked = 0
+        for i in range(s0, min(e0 + 1, s0 + 40)):
+            kids = box_cells(ev2, [(i * (1 << N) + k + 0.5) / n2 for k in range(1 << N)], lo, side, m + 1, gtol, viol, info)
+            for k, cj in enumerate(kids):
+                kids_checked += 1
+                if not np.array_equal(cj >> 1, cs[i - s0]) and len(viol) < 5:
+                    viol.append(dict(info, mech="finer-cell-not-nested", i=i, k=k, coarse=cs[i - s0].tolist(), fine=cj.tolist()))
+        obs.update({"box_adjacent_pairs": len(cs) - 1, "box_nested_children": kids_checked, "box_kinds": [c["box"]]})
+        return {"violations": viol, "obs": obs, "nontrivial": True, "key": "boxadj|%d|%d|%d" % (N, m, c["i"]),
+                "sample": dict(info, kind="adjacency and nesting on a box", window=[s0, e0]) if c["i"] < 2 else None}
     if kind == "holder":
         rng = scenario.rng_for(c["seed"], "C08hr", c["i"])
         if c["i"] % 2:
@@ -188,7 +238,7 @@ def run_case(c):
 def finalize(obs, tier, stats):
     if obs.get("max_Nm", 0) < 50:
         return "windows never reached N*m = 50", {}
-    for k in ("adjacent_pairs", "nested_children", "window_adjacent_pairs", "window_nested", "holder_pairs", "structural_cases_on_rebounded_objects",
+    for k in ("adjacent_pairs", "nested_children", "window_adjacent_pairs", "window_nested", "holder_pairs", "box_adjacent_pairs", "box_nested_children", "evolvents_built_by_a_solver", "structural_cases_on_rebounded_objects",
               "holder_cases_on_rebounded_objects"):
         if not obs.get(k):
             return "monitor %s never ran" % k, {}
